@@ -23,14 +23,28 @@ func (an *Analysis) isEntryDataLoad(v ssa.Value) (*ssa.FieldAddr, bool) {
 	return fa, true
 }
 
-// IsServeReturn: a return whose response operand is (directly) a stored entry's response.
+// isOutcomeFunc: a function with the RoundTripper result shape (*http.Response, error).
+func isOutcomeFunc(fn *ssa.Function) bool {
+	rs := sigResults(fn)
+	return len(rs) == 2 && isHTTPResponsePtr(rs[0]) && isErrorType(rs[1])
+}
+
+// IsServeReturn: a return, in a function with the RoundTripper result shape, whose response operand is a stored
+// entry's response (loaded directly or handed back by a helper that is not itself such a function), and only that.
+// Returns that delegate to another outcome function are judged at that function's own returns.
 func (an *Analysis) IsServeReturn(in ssa.Instruction) bool {
 	r, ok := in.(*ssa.Return)
-	if !ok || len(r.Results) == 0 || !isHTTPResponsePtr(r.Results[0].Type()) {
+	if !ok || len(r.Results) != 2 || !isHTTPResponsePtr(r.Results[0].Type()) || !isOutcomeFunc(in.Parent()) {
 		return false
 	}
-	_, ok = an.isEntryDataLoad(r.Results[0])
-	return ok
+	if isNilConst(r.Results[0]) || an.isRepoCallResult(r.Results[0]) {
+		return false
+	}
+	if _, ok := an.isEntryDataLoad(r.Results[0]); ok {
+		return true
+	}
+	k := an.ResponseKinds(r.Results[0])
+	return k["stored"] && !k["upstream"] && !k["synth"]
 }
 
 // IsUpstreamSite: the instruction is an origin call.
